@@ -16,7 +16,7 @@ import math
 from .. import tlc
 from ..common import main_wrapper
 
-CFG = """CONSTANTS DirLen = {dirlen}
+CFG = """CONSTANTS DirLens = {dirlen}
 MaxOrd = {maxord}
 SPECIFICATION Spec
 INVARIANT Reflexive
@@ -70,7 +70,7 @@ def _op(f):
 
 
 def run(ctx, args):
-    configs = [(1, 3), (2, 1)] if ctx.tier == "quick" else [(1, 3), (2, 3), (3, 2)]
+    configs = [("{1}", 3), ("{1, 2}", 1)] if ctx.tier == "quick" else [("{1}", 3), ("{2}", 3), ("{1, 2}", 2), ("{2, 3}", 1), ("{3}", 2)]
     ctx.rule = (
         "TLC enumerates every triple of spaces of each universe (12 predefined + all directional spaces of one "
         "dimension) and checks the order laws on the intended relation; every ordered pair is then evaluated on "
